@@ -78,6 +78,24 @@ def h_to_state(env, N, r):
         s = res.value
         inv_goals(env, s.gs, s.ps, s.r, N, None, 'new_')
         env.goal('rank', eq(s.r, 0 if r is None else r))
+        # histories with sibling objects: a second state from the same map, measured against the first; post-selecting the
+        # first on a row of the map -- every state involved still satisfies Inv afterwards
+        sib = env.run(lambda: m.to_state(1 if N >= 1 else None))
+        if sib.value is not None:
+            rho = sib.value
+            r0 = rho.r
+            mm = env.run(lambda: rho.measure(s))
+            env.goal('sibling_measure_no_exception', b_not(mm.raised))
+            if mm.value is not None:
+                inv_goals(env, rho.gs, rho.ps, rho.r, N, r0, 'sibling_')
+                inv_goals(env, s.gs, s.ps, s.r, N, None, 'first_after_sibling_measure_')
+        ps_ = env.run(lambda: s.postselect(m[1], 0))
+        if ps_.value is not None:
+            inv_goals(env, s.gs, s.ps, s.r, N, None, 'after_postselect_on_map_row_')
+        env.goal('map_unchanged', b_and(arr_eq(m.gs, mg), arr_eq(m.ps, mp)))
+
+
+h_to_state.uses_rng = True
 
 
 def h_stabilizer_state(env, N, L):
